@@ -40,6 +40,7 @@ pub struct Scenario {
     pub rrt_try: usize,   // max_try of the RRT planner
     pub rng: usize,       // RRT step: 0 -> 0.25 rad, 1 -> 0.8 rad (sample draws are the constant 1/2)
     pub land: usize,      // 0 tool straight down (2 wrist-flip strategies), 1 tilted posture (4 strategies over two arm branches)
+    pub coef: usize,      // transition coefficients: 0 the library default, 1 stricter on every joint, 2 base joint only
     pub turn: usize,      // 1: the legs after the first are 2 cm long and turn the tool by 0.7 rad about its axis (rotation needs more check steps than translation); 2: every second stroke pose repeats the one before it and the parking pose is the last stroke pose (consecutive identical poses)
 }
 
@@ -47,19 +48,20 @@ pub const STEP_M: [f64; 3] = [0.02, 0.05, 1.0];
 pub const STEP_RAD: [f64; 2] = [0.05, 0.5];
 pub const COSTS: [f64; 3] = [0.02, 0.2, 10.0];
 pub const DEPTHS: [usize; 3] = [0, 2, 5];
+pub const COEFS: [[f64; 6]; 3] = [DEFAULT_TRANSITION_COSTS, [6.0, 6.0, 6.0, 5.0, 5.0, 5.0], [8.0, 0.0, 0.0, 0.0, 0.0, 0.0]];
 
 impl Scenario {
     pub fn json(&self) -> Value {
         json!({"start": self.start, "stroke": self.stroke, "cornered": self.cornered, "step_m": self.step_m, "step_rad": self.step_rad, "cost": self.cost,
-            "depth": self.depth, "interp": self.interp, "obstacle": self.obstacle, "safety": self.safety, "limits": self.limits, "rrt_try": self.rrt_try, "rng": self.rng, "land": self.land, "turn": self.turn})
+            "depth": self.depth, "interp": self.interp, "obstacle": self.obstacle, "safety": self.safety, "limits": self.limits, "rrt_try": self.rrt_try, "rng": self.rng, "land": self.land, "turn": self.turn, "coef": self.coef})
     }
     pub fn from_json(v: &Value) -> Scenario {
         let u = |k: &str| v[k].as_u64().unwrap() as usize;
         Scenario { start: u("start"), stroke: u("stroke"), cornered: v["cornered"].as_bool().unwrap(), step_m: u("step_m"), step_rad: u("step_rad"), cost: u("cost"),
-            depth: u("depth"), interp: v["interp"].as_bool().unwrap(), obstacle: u("obstacle"), safety: u("safety"), limits: u("limits"), rrt_try: u("rrt_try"), rng: u("rng"), land: v["land"].as_u64().unwrap_or(0) as usize, turn: v["turn"].as_u64().unwrap_or(0) as usize }
+            depth: u("depth"), interp: v["interp"].as_bool().unwrap(), obstacle: u("obstacle"), safety: u("safety"), limits: u("limits"), rrt_try: u("rrt_try"), rng: u("rng"), land: v["land"].as_u64().unwrap_or(0) as usize, turn: v["turn"].as_u64().unwrap_or(0) as usize, coef: v["coef"].as_u64().unwrap_or(0) as usize }
     }
     fn easy() -> Scenario {
-        Scenario { start: 1, stroke: 2, cornered: false, step_m: 0, step_rad: 0, cost: 2, depth: 2, interp: true, obstacle: 0, safety: 0, limits: 0, rrt_try: 4, rng: 0, land: 0, turn: 0 }
+        Scenario { start: 1, stroke: 2, cornered: false, step_m: 0, step_rad: 0, cost: 2, depth: 2, interp: true, obstacle: 0, safety: 0, limits: 0, rrt_try: 4, rng: 0, land: 0, turn: 0, coef: 0 }
     }
 }
 
@@ -168,7 +170,7 @@ fn planner<'a>(s: &Scenario, robot: &'a KinematicsWithShape) -> Cartesian<'a> {
         check_step_m: STEP_M[s.step_m],
         check_step_rad: STEP_RAD[s.step_rad],
         max_transition_cost: COSTS[s.cost],
-        transition_coefficients: DEFAULT_TRANSITION_COSTS,
+        transition_coefficients: COEFS[s.coef],
         linear_recursion_depth: DEPTHS[s.depth],
         rrt: RRTPlanner { step_size_joint_space: if s.rng == 1 { 0.8 } else { 0.25 }, max_try: s.rrt_try, debug: false },
         include_linear_interpolation: s.interp,
@@ -315,7 +317,8 @@ pub fn judge_path(s: &Scenario, b: &Built, path: &[AnnotatedJoints], gap_closing
         if s.interp && pure_cartesian {
             let lim = COSTS[s.cost] * (1.0 + 1e-12);
             for i in anchors[0]..anchors[anchors.len() - 1] {
-                let c = transition_costs(&path[i].joints, &path[i + 1].joints, &DEFAULT_TRANSITION_COSTS);
+                // documented cost: weighted sum of the joint differences, with the coefficients the planner was configured with
+                let c: f64 = (0..6).map(|k| (path[i].joints[k] - path[i + 1].joints[k]).abs() * COEFS[s.coef][k]).sum();
                 if !(c <= lim) {
                     fails.push((
                         "C12/transition-cost-exceeded".to_string(),
@@ -546,7 +549,7 @@ pub fn run(ctx: &Ctx) -> Report {
         par::decode(idx, &sizes, &mut ix);
         let s = Scenario {
             start: ix[0], stroke: ix[1], cornered: ix[2] == 1, step_m: ix[3], step_rad: ix[4], cost: ix[5], depth: ix[6], interp: ix[7] == 1,
-            obstacle: ix[8], safety: ix[9], limits: ix[10], rrt_try: [4, 1, 0][(ix[0] + ix[5]) % 3], rng: 0, land: (ix[1] + ix[3]) % 2, turn: [1, 0, 2][(ix[0] + ix[3] + ix[6]) % 3],
+            obstacle: ix[8], safety: ix[9], limits: ix[10], rrt_try: [4, 1, 0][(ix[0] + ix[5]) % 3], rng: 0, land: (ix[1] + ix[3]) % 2, turn: [1, 0, 2][(ix[0] + ix[3] + ix[6]) % 3], coef: [0, 1, 0, 2][(ix[1] + ix[5] + ix[7]) % 4],
         };
         let (fails, sig) = eval_scenario(&s, false);
         r.states += 1;
@@ -576,7 +579,7 @@ pub fn run(ctx: &Ctx) -> Report {
             }
             let s = Scenario {
                 start: ix[0], stroke: ix[1], cornered: ix[2] == 1, step_m: ix[3], step_rad: ix[4], cost: ix[5], depth: ix[6], interp: ix[7] == 1,
-                obstacle: ix[8], safety: ix[9], limits: ix[10], rrt_try: 4, rng: 0, land: (ix[1] + ix[3]) % 2, turn: [1, 0, 2][(ix[0] + ix[3] + ix[6]) % 3],
+                obstacle: ix[8], safety: ix[9], limits: ix[10], rrt_try: 4, rng: 0, land: (ix[1] + ix[3]) % 2, turn: [1, 0, 2][(ix[0] + ix[3] + ix[6]) % 3], coef: [0, 1, 0, 2][(ix[1] + ix[5] + ix[7]) % 4],
             };
             let (fails, sig) = eval_scenario(&s, true);
             rep.states += 1;
@@ -612,7 +615,7 @@ pub fn run(ctx: &Ctx) -> Report {
     }
     rep.set("schedule_exploration", json!(sched_summary));
     rep.traces_validated += rep.states;
-    rep.rule = "E1: scenarios = start {landing configuration, nearby, far} x stroke {0..3 poses} x {straight, cornered} (a third of the scenarios with short legs that turn the tool by 0.7 rad, so rotation dictates the check steps; a third with repeated stroke poses and parking on the last stroke pose) x check steps x cost limits x recursion depths x \
+    rep.rule = "E1: scenarios = start {landing configuration, nearby, far} x stroke {0..3 poses} x {straight, cornered} (a third of the scenarios with short legs that turn the tool by 0.7 rad, so rotation dictates the check steps; a third with repeated stroke poses and parking on the last stroke pose) x check steps x cost limits x transition coefficients {default, stricter on all joints, base joint only} x recursion depths x \
                 include-interpolation x obstacles {free, grazing 1.1r, inside 0.9r, fin across a leg, block on one landing branch, slab} x safety x limits, RRT \
                 draws scripted to a constant; oracle on Ok: waypoints free (collides + brute-force pairs) and within limits, path[0] = given start, LAND/TRACE/PARK \
                 embed in order with pose reproduced by the reference FK, LIN_INTERP waypoints on the segment, transition cost, no LIN_INTERP unless requested; \
